@@ -334,7 +334,7 @@ theorem iter_facts (env : Env) (o : Opts) (run : Nat → St → St × Outcome) (
     · simpa [entered] using hc.2.2
     · simp [hb]
     · simp [hb]
-    · rfl
+    · cases bo <;> rfl
   · rw [h4, h1]; rfl
 
 theorem loop_unfold (env : Env) (o : Opts) (run : Nat → St → St × Outcome) (fuel i : Nat) (last : Option Exc) (s : St)
